@@ -22,6 +22,7 @@ Id(scheme, lin, count) ==
     [] scheme = "reversed"   -> count - lin
     [] scheme = "scattered"  -> ((lin * 7) % 31) * 3 + 5               \* injective for count <= 31
     [] scheme = "zero_based" -> lin
+    [] scheme = "offset"     -> lin + 101                              \* contiguous, ascending, but not starting at 1
 LatticeNodes(d) == {<<i, j, k>> : i \in 0..d[1], j \in 0..d[2], k \in 0..d[3]}
 LatticeCells(d) == {<<i, j, k>> : i \in 0..(d[1]-1), j \in 0..(d[2]-1), k \in 0..(d[3]-1)}
 (* corner order of a hexahedron as gradient_3D expects it *)
